@@ -1,5 +1,6 @@
 """C18 - the diagnostic checkers accept every valid tree and detect every
 corruption."""
+from ..harness import safe_repr as _srepr  # noqa: E402
 from .. import corpus, families, gen, surgeon, walker
 from ..families import f32, sort_keys
 from ..harness import brief
@@ -323,7 +324,7 @@ def run_tree(fam, kind, impl, rng, rec, ti):
             rec.ev('valid-ghost-accepted')
     # (b) single corruptions
     for cls, lvl, pos, cd, kw in corruptions(d, rng, uni):
-        rec.journal(repr((desc0, cls, lvl, pos)))
+        rec.journal(_srepr((desc0, cls, lvl, pos)))
         try:
             ct = surgeon.build(cd, fam, kind, impl, **kw)
         except Exception as e:
